@@ -654,25 +654,34 @@ def selectDefinition (n : Nat) (d : Str) : PI Unit :=
   else if kw "union" d then unionTypeDefinition n
   else errAndPop
 
-def document (n : Nat) : PI Unit :=
-  withNode "DOCUMENT" (do
-    let k ← peek
-    if k == none || k == some .eof then err
-    peekWhile fun kind => do
-      -- `assert_eq!(p.recursion_limit.current, 0, …)`: holds by `Frame.recCur` (every definition restores it)
-      if !(← recCurIsZero) then deadBranch
-      if kind == .stringValue then
-        match ← peekDataN 2 with
-        | some d => selectDefinition n d
-        | none => errAndPop
-        pure true
-      else if kind == .name || kind == .lCurly then
-        match ← peekData with
-        | some d => selectDefinition n d
-        | none => errAndPop
-        pure true
-      else if kind == .eof then pure false
-      else do errAndPop; pure true
-    pushIgnored)
+/-- which definition parser a top-level token starts (the `match kind { … }` in `document()`) -/
+def documentDispatch (n : Nat) (kind : Kind) : PI Unit := do
+  if kind == .stringValue then
+    match ← peekDataN 2 with
+    | some d => selectDefinition n d
+    | none => errAndPop
+  else if kind == .name || kind == .lCurly then
+    match ← peekData with
+    | some d => selectDefinition n d
+    | none => errAndPop
+  else errAndPop
+
+/-- one iteration of the `peek_while` closure in `document()`.
+    `assert_eq!(p.recursion_limit.current, 0, …)` holds by `Frame.recCur` (every definition restores
+    the counter); the model records a violation in the `deadBranch` ghost flag instead of panicking. -/
+def documentStep (n : Nat) (kind : Kind) : PI Bool :=
+  if kind == .eof then assertRecZero >>= fun _ => pure false
+  else assertRecZero >>= fun _ => documentDispatch n kind >>= fun _ => pure true
+
+/-- `if let None | Some(TokenKind::Eof) = p.peek() { p.err("Unexpected <EOF>.") }` -/
+def errIfEmpty (k : Option Kind) : PI Unit := if k == none || k == some .eof then err else pure ()
+
+def documentBody (n : Nat) : PI Unit :=
+  peek >>= fun k =>
+  errIfEmpty k >>= fun _ =>
+  peekWhile (documentStep n) >>= fun _ =>
+  pushIgnored
+
+def document (n : Nat) : PI Unit := withNode "DOCUMENT" (documentBody n)
 
 end Apollo.Parse
